@@ -15,7 +15,11 @@ EXPLANATION = (
     "observation is a function of the state returned with it, never of the previous one); (R1b) every observation field "
     "that has the same name as a State field is the same value as (plain copy) or data-dependent on (computed view) that "
     "field of the returned state -- a constant or a differently sourced value is a violation; (R1c) the action mask "
-    "shown to the agent is not computed from superseded state. Not decided: the content of computed views (field of "
+    "shown to the agent is not computed from superseded state; (R2) wiring of documented computed views: Snake's five planes are "
+    "[body, head at head_position, tail, fruit at fruit_position, body_state / max] of the returned state in that order; BinPack "
+    "normalisers divide every coordinate by the container length of the same axis (observation / container), and ems / ems_mask "
+    "show the first obs_num_ems entries of the descending-volume order with one shared selection; Tetris shows the visible window "
+    "of the returned padded board and the next piece stored in the returned state. Not decided: the content of computed views (field of "
     "view, sensors, feature planes, largest-EMS selection, relabelling), which is value-level.")
 
 
@@ -83,7 +87,9 @@ def check(tier: str) -> Result:
                         res.add("C12.R1b", site, fn, f"Observation.{path}{tag} agrees with returned State.{path}", bool(rel),
                                 {"copy": "plain copy (same value)", "view": "computed from the state field"}.get(rel) or
                                 f"observation shows {txt(val, 4, 100)} but the returned state holds {txt(B, 4, 100)}")
-    res.analysed = {"environments": len(analyses(tree)), "functions": n_funcs, "observation_fields": n_fields}
+    from . import views
+    n_views = views.add_obligations(res, {ea.cls.name: ea for ea in analyses(tree)}, "C12.R2")
+    res.analysed = {"environments": len(analyses(tree)), "functions": n_funcs, "observation_fields": n_fields, "view_wiring_obligations": n_views}
     if n_fields < 150:
         raise AnalysisError(f"only {n_fields} observation fields analysed (hand-confirmed minimum 150 over reset+step)")
     res.assumptions = ["records are not aliased across names inside step (attribute stores rebind the stored-to name)",
